@@ -98,6 +98,16 @@ def impl(case):
     from dyce import P
 
     k = case["k"]
+    if k in ("matmul", "rmatmul") and case.get("nq") is not None:
+        # a repetition count given in another numeric type: integral values are the integer they equal,
+        # non-integral ones are rejected (never truncated)
+        h = C.dec_h(case["h"])
+        nq = C.dec_out(case["nq"])
+        try:
+            r = (nq @ h) if k == "rmatmul" else (h @ nq)
+        except (ValueError, TypeError):
+            return "err rejected"
+        return _fmt_h(r.items(), r.total, _den([case["h"]]))
     if k in ("matmul", "rmatmul"):
         h = C.dec_h(case["h"])
         den = _den([case["h"]])
@@ -175,6 +185,8 @@ def _flat_ints(args):
 
 def model(case):
     k = case["k"]
+    if case.get("nq") is not None and Fraction(C.dec_out(case["nq"])).denominator != 1:
+        return None  # a non-integral count: the oracle (rejection) decides
     if k in ("matmul", "rmatmul", "matmul_add", "ph_matmul"):
         h = C.dec_h(case["h"])
         den = _den([case["h"]])
@@ -225,6 +237,10 @@ def model_post(case, out):
 def oracle(case):
     """first principles: repeated convolution / multiset of non-empty leaves"""
     k = case["k"]
+    if case.get("nq") is not None:
+        q = Fraction(C.dec_out(case["nq"]))
+        if q.denominator != 1 or q < 0:
+            return "err rejected"
     if k in ("matmul", "rmatmul", "matmul_add", "ph_matmul"):
         n = case["m"] + case["n"] if k == "matmul_add" else case["n"]
         if n < 0:
@@ -324,6 +340,9 @@ def generate(rnd, tier, scale):
         h = rnd.choice(gen.catalogue()) if rnd.random() < 0.25 else gen.rand_h(rnd, 4, kind, allow_zero_total=rnd.random() < 0.1, counts=(0, 1, 1, 2, 3, 5))
         if r < 0.25:
             yield dict(k=rnd.choice(["matmul", "rmatmul"]), h=h, n=rnd.choice([-2, -1, 0, 1, 2, 3, 5, 8, 13, 21, 40]))
+            if rnd.random() < 0.25:
+                nq = rnd.choice(["f:2.5", "f:0.5", "q:5/2", "q:1/3", "f:2.0", "q:3/1", "b:1", "f:-1.5", "f:1.999"])
+                yield dict(k=rnd.choice(["matmul", "rmatmul"]), h=h, n=int(Fraction(C.dec_out(nq))), nq=nq)
         elif r < 0.4:
             yield dict(k="matmul_add", h=h, m=rnd.randint(1, 12), n=rnd.randint(1, 12))
         elif r < 0.5:
